@@ -155,6 +155,64 @@ pub fn judge_with<'a>(sel: &'a Selector<'a>, path: &JPath, doc: &RVal, bytes: &'
     acc.sample(|| json!({"path": print_path(path), "doc": format!("{:?}", doc)}));
 }
 
+/// a fixed arena: successive documents are copied to the SAME address, as a caller reusing a row
+/// buffer would do (state keyed by addresses inside a reused `Selector` becomes observable)
+fn at_fixed_address(bytes: &[u8]) -> &'static [u8] {
+    thread_local! {
+        static ARENA: *mut u8 = Box::leak(vec![0u8; 1 << 20].into_boxed_slice()).as_mut_ptr();
+    }
+    assert!(bytes.len() <= 1 << 20);
+    ARENA.with(|p| unsafe {
+        // no reference handed out earlier is used again after this overwrite
+        std::ptr::copy_nonoverlapping(bytes.as_ptr(), *p, bytes.len());
+        std::slice::from_raw_parts(*p, bytes.len())
+    })
+}
+
+/// the convenience entry points, writing behind earlier content of the caller's buffer: what they
+/// append must be the first item / the array of all items / the item or the array (two or more)
+pub fn judge_convenience(path: &JPath, ipath: &jsonb::jsonpath::JsonPath<'static>, doc: &RVal, bytes: &[u8], acc: &mut Acc) {
+    let model = eval(path, doc);
+    let expect: [Option<Vec<u8>>; 3] = match &model {
+        EvalResult::Items(items) if items.iter().all(|(_, c)| *c) => {
+            let vals: Vec<RVal> = items.iter().map(|(v, _)| v.clone()).collect();
+            let first = vals.first().map(enc).unwrap_or_default();
+            let arr = enc(&RVal::Arr(vals.clone()));
+            let mixed = match vals.len() { 0 => vec![], 1 => enc(&vals[0]), _ => arr.clone() };
+            [Some(mixed), Some(first), Some(arr)]
+        }
+        EvalResult::Predicate(t) if *t != Tri::U => {
+            let b = enc(&RVal::Bool(*t == Tri::T));
+            [Some(b.clone()), Some(b.clone()), Some(b)]
+        }
+        _ => return,
+    };
+    const PREFIX: [u8; 5] = [0x80, 0x00, 0x00, 0x01, 0x7F];
+    for (k, name) in ["get_by_path", "get_by_path_first", "get_by_path_array"].iter().enumerate() {
+        acc.eval();
+        let mut data = PREFIX.to_vec();
+        let mut offs: Vec<u64> = vec![3];
+        let r = guard(|| match k {
+            0 => jsonb::get_by_path(bytes, ipath.clone(), &mut data, &mut offs),
+            1 => jsonb::get_by_path_first(bytes, ipath.clone(), &mut data, &mut offs),
+            _ => jsonb::get_by_path_array(bytes, ipath.clone(), &mut data, &mut offs),
+        });
+        let ctx = || json!({"path": print_path(path), "doc": format!("{:?}", doc), "doc_hex": hex(bytes), "function": name});
+        match r {
+            Err(p) => acc.vio(&format!("{}:{}", name, panic_class(&p)), ctx),
+            Ok(Err(e)) => acc.vio(&format!("{}:error-on-supported-path", name), || json!({"ctx": ctx(), "err": format!("{:?}", e)})),
+            Ok(Ok(())) => {
+                let exp = expect[k].as_ref().unwrap();
+                if data.len() < 5 || data[..5] != PREFIX {
+                    acc.vio(&format!("{}:earlier-buffer-content-modified", name), || json!({"ctx": ctx(), "buffer": hex(&data)}));
+                } else if data[5..] != exp[..] {
+                    acc.vio(&format!("{}:appended-bytes-are-not-the-denoted-items", name), || json!({"ctx": ctx(), "expected": hex(exp), "appended": hex(&data[5..])}));
+                }
+            }
+        }
+    }
+}
+
 pub struct PathSet {
     pub name: String,
     pub paths: Arc<Vec<(JPath, jsonb::jsonpath::JsonPath<'static>)>>,
@@ -340,8 +398,12 @@ pub fn spaces(tier: Tier) -> Vec<Space<'static>> {
             for (d, b) in docs.iter() {
                 judge_with(&sel, p, d, b, acc);
             }
+            // on the way back each document is placed at the same address
             for (d, b) in docs.iter().rev().take(40) {
-                judge_with(&sel, p, d, b, acc);
+                judge_with(&sel, p, d, at_fixed_address(b), acc);
+            }
+            for (d, b) in docs.iter().take(25).chain(docs.iter().rev().take(15)) {
+                judge_convenience(p, ip, d, b, acc);
             }
         }));
     }
